@@ -191,13 +191,20 @@ def _validate_toml_config(conf: dict[str, Any]) -> dict[str, Any]:
     return conf
 
 
+def __option_with_value(arg_name: str, value: str) -> list[str]:
+    # NOTE As one `--name=value` token a value starting with "-" is not taken for an option
+    if arg_name.startswith("--"):
+        return [f"{arg_name}={value}"]
+    return [arg_name, value]
+
+
 def _translate_toml_conf_to_sys_args(toml_conf: dict[str, Any]) -> list[str]:
     """Return the toml conf translated to `sys.argv` style list.
 
     >>> _translate_toml_conf_to_sys_args(
     ...     {"threshold": 10, "warning-level": "all", "exclude": ["a", "b"]}
     ... )
-    ["--threshold", "0", "--warning-level", "all", "--exclude", "a", "--exclude", "b"]
+    ["--threshold=10", "--warning-level=all", "--exclude=a", "--exclude=b"]
     """
     toml_sys_args: list[str] = []
 
@@ -210,9 +217,9 @@ def _translate_toml_conf_to_sys_args(toml_conf: dict[str, Any]) -> list[str]:
         if isinstance(v, bool):
             toml_sys_args += [arg_name] if v else []
         elif isinstance(v, str) or isinstance(v, int) or isinstance(v, float):
-            toml_sys_args += [arg_name, f"{v}"]
+            toml_sys_args += __option_with_value(arg_name, f"{v}")
         elif isinstance(v, list):
             for arg_value in v:
-                toml_sys_args += [arg_name, f"{arg_value}"]
+                toml_sys_args += __option_with_value(arg_name, f"{arg_value}")
 
     return toml_sys_args
